@@ -17,7 +17,8 @@ RULE = ("(pdm) random rose trees (1-12 leaves quick, up to 40 thorough; polytomi
         "x {taxa, taxon_labels, leafset_bitmask}; (nj/upgma) additive / ultrametric dyadic matrices generated from random trees with positive "
         "lengths (binary and polytomous; 40% with near-ties: internal edges of 2^-33 … 2^-20 next to heights of order 1 under a random "
         "taxon-to-leaf mapping, so the true minimum beats the runner-up by < 1e-9 relative yet by many ulps), the same read back from CSV, unit-length (edge count) matrices, and arbitrary dyadic matrices "
-        "(model comparison only); thorough adds every shape <= 6 leaves. Non-trivial = >= 4 leaves.")
+        "(model comparison only); for every NJ / UPGMA run the path lengths in the returned tree (independent walk) are compared with the model's "
+        "NT.dist of its own result (op `ntdist`) and, for tree-generated input, with the input matrix; thorough adds every shape <= 6 leaves. Non-trivial = >= 4 leaves.")
 MODELLED_NOT_VERIFIED = [
     "C14: the Lean functions walk/pairNode/mirror/lookup/meanPairwise/meanNearest, scanT/scanL/tail/treeMrca/collapseBasal, njJoin/njPick/njRun, "
     "upJoin/upPick/upRun are hand-written from PhylogeneticDistanceMatrix.compile_from_tree/_mirror_lookups/_calculate_mean_*, Tree.mrca, "
@@ -25,12 +26,13 @@ MODELLED_NOT_VERIFIED = [
     "C14: the theorems are proved for every commutative monoid / field of numbers and transported to the type the driver runs: "
     "`toRat` commutes with every `Frac` operation on fractions with non-zero denominator (Aux.toRat_add/sub/mul/div/natCast/lt), the models are "
     "natural in the number type (entries_nat, table_nat, nj_run_rel, up_run_rel), hence frac_pdm_spec, frac_pdm_lookup_spec, "
-    "frac_nj_rowsum_invariant, frac_nj_tree, frac_upgma_tree speak about `entries fracLen taxonKey`, `njTree`, `upgmaTree` at `Frac`; the summaries "
-    "(meanPairwise/meanNearest) and Tree.mrca (no arithmetic) are not transported separately. binary64 rounding in the library is not modelled "
+    "frac_mean_pairwise_both, frac_mntd, frac_nj_rowsum_invariant, frac_nj_tree, frac_upgma_tree, frac_upgma_recovers_tree, frac_treemeasure_spec speak about "
+    "`entries fracLen taxonKey`, `meanPairwise`/`meanNearest`, `njTree`, `upgmaTree`, `treePatristic` at `Frac`; Tree.mrca needs no arithmetic. "
+    "binary64 rounding in the library is not modelled "
     "(exact comparison on dyadic inputs; means, normalised values and NJ branch lengths within 1e-9)",
-    "C14: NJ consistency (a Q-minimal pair of an additive metric with positive internal edges is a cherry) is NOT proved: "
-    "nj_realises_of_cherry_picking_partial proves the induction over contractions with that lemma as its hypothesis (unconditional for <= 3 taxa: "
-    "nj_realises_three), so the NJ half of clause (d) is tested: executed on implementation and model for generated additive inputs and "
+    "C14: NJ consistency (a Q-minimal pair of an additive metric with positive internal edges is a cherry) is proved for <= 4 taxa only "
+    "(nj_four_cherry, nj_realises_four, nj_realises_three); nj_realises_of_cherry_picking_partial proves the induction over contractions with "
+    "that lemma as its hypothesis, and there is no uniqueness theorem for additive trees, so for n >= 5 the NJ half of clause (d) is tested: executed on implementation and model for generated additive inputs and "
     "compared with the generating tree. The UPGMA half is proved (upgma_recovers_tree)",
     "C14: CSV formatting/parsing and NodeDistanceMatrix are judged by the oracle only (not modelled); treemeasure.patristic_distance is "
     "modelled (treePatristic, op `tm`) with every taxon on exactly one node (find_node is rendered as a search below the common ancestor)",
@@ -63,6 +65,11 @@ def fr(x):
 def close(a, b, tol=TOL):
     a, b = float(a), float(b)
     return abs(a - b) <= tol * max(1.0, abs(a), abs(b))
+
+
+def kbit(taxon):
+    """the harness names the taxon of bit k `t<k>`: the key of a taxon is read off its label, not asked of the library"""
+    return int(taxon.label[1:])
 
 
 def leaves_lr(tree):
@@ -102,7 +109,7 @@ def oracle_pairs(tree, ids):
             while k < len(pa) and k < len(pb) and pa[k] is pb[k]:
                 k += 1
             d = sum((tu.F(x.edge.length) for x in pa[k:]), Fraction(0)) + sum((tu.F(x.edge.length) for x in pb[k:]), Fraction(0))
-            out[(tu.bit_of(tns, a.taxon), tu.bit_of(tns, b.taxon))] = (d, len(pa) - k + len(pb) - k, ids.of(pa[k - 1]))
+            out[(kbit(a.taxon), kbit(b.taxon))] = (d, len(pa) - k + len(pb) - k, ids.of(pa[k - 1]))
     return out
 
 
@@ -155,7 +162,7 @@ def case_pdm(ctx, dendropy, case, pending):
     want = oracle_pairs(tree, ids)
     got = {}
     taxa = [x.taxon for x in lv]
-    bits = [tu.bit_of(tns, t) for t in taxa]
+    bits = [kbit(t) for t in taxa]
     internal_root = bool(tree.seed_node._child_nodes)
     for a, ba in zip(taxa, bits):
         for b, bb in zip(taxa, bits):
@@ -201,11 +208,11 @@ def case_pdm(ctx, dendropy, case, pending):
     npairs = len(list(pdm.distinct_taxon_pair_iter()))
     if npairs != n * (n - 1) // 2:
         ctx.fail("pdm-pairs", "distinct_taxon_pair_iter yields %d pairs for %d leaves" % (npairs, n), case)
-    if internal_root and sorted(tu.bit_of(tns, t) for t in pdm.taxon_iter()) != sorted(bits):
+    if internal_root and sorted(kbit(t) for t in pdm.taxon_iter()) != sorted(bits):
         ctx.fail("pdm-taxa", "taxon_iter does not yield exactly the leaf taxa", case)
     if n >= 2:
         mx = pdm.max_pairwise_distance_taxa()
-        mxb = tuple(tu.bit_of(tns, x) for x in mx)
+        mxb = tuple(kbit(x) for x in mx)
         if mxb not in want or want[mxb][0] != max(v[0] for v in want.values()):
             ctx.fail("pdm-max", "max_pairwise_distance_taxa is not a pair at maximal distance", case)
     pending.append(("pdm " + " ".join(toks), case, (show_cells(got), fr(tu.total_length(tree)), str(len(ids))), "cells"))
@@ -217,7 +224,7 @@ def case_pdm(ctx, dendropy, case, pending):
         if norm and weighted and total == 0:
             continue
         keep = None if keepbits is None else set(keepbits)
-        ff = None if keep is None else (lambda t: tu.bit_of(tns, t) in keep)
+        ff = None if keep is None else (lambda t: kbit(t) in keep)
         fn = pdm.mean_pairwise_distance if kind == "mpd" else pdm.mean_nearest_taxon_distance
         try:
             r = fn(filter_fn=ff, is_weighted_edge_distances=weighted, is_normalize_by_tree_size=norm)
@@ -254,7 +261,7 @@ def case_pdm(ctx, dendropy, case, pending):
             t2, ids2 = tu.tree_from_tokens(dendropy, toks, rooted=rooted)
             if not upd:
                 t2.encode_bipartitions(suppress_unifurcations=False, collapse_unrooted_basal_bifurcation=False)
-            by = {tu.bit_of(t2.taxon_namespace, x.taxon): x.taxon for x in leaves_lr(t2)}
+            by = {kbit(x.taxon): x.taxon for x in leaves_lr(t2)}
             with time_limit(30):
                 d = treemeasure.patristic_distance(t2, by[ba], by[bb], is_bipartitions_updated=not upd)
             w = Fraction(0) if ba == bb else want[(ba, bb)][0]
@@ -579,7 +586,20 @@ def run_matrix(ctx, dendropy, pdm, case, pending, source=None, weighted=True, me
         if (res.is_rooted is not False) if method == "nj" else (res.is_rooted is not True):
             ctx.fail(method + "-rooting", "%s result has is_rooted=%r" % (method, res.is_rooted), case)
         flat = flat_impl(res, index_of)
-        pending.append(("%s %d %s" % (method, n, mwords), case, flat, "flat-exact" if method == "upgma" and source and source[0] == "ultrametric" else "flat"))
+        exact = method == "upgma" and bool(source) and source[0] == "ultrametric"
+        pending.append(("%s %d %s" % (method, n, mwords), case, flat, "flat-exact" if exact else "flat"))
+        # path lengths between the taxa in the tree returned (independent walk), against the model's `NT.dist` of its own result
+        lp = tu.leaf_paths(res)
+        lab = [t.label for t in taxa]
+        pd = {(i, j): lp[frozenset((lab[i], lab[j]))][0] for i in range(n) for j in range(i + 1, n)} if n >= 2 else {}
+        pending.append(("ntdist %s %d %s" % (method, n, mwords), case, pd, "pairs-exact" if exact else "pairs"))
+        if source is not None and n >= 2 and ((method == "nj" and source[0] in ("additive", "ultrametric")) or exact):
+            # "NJ / UPGMA invert them": the tree returned realises the matrix it was given
+            for (i, j), v in pd.items():
+                if (Fraction(v) != mat[i][j]) if exact else (not close(v, mat[i][j])):
+                    ctx.fail(method + "-inverts", "%s_tree: taxa %s,%s are %s apart in the tree returned, the matrix says %s" % (
+                        method, lab[i], lab[j], fr(v), fr(mat[i][j])), case)
+                    break
         if source is None or n < 2:
             continue
         kind, src = source
@@ -621,7 +641,7 @@ def case_recon(ctx, dendropy, case, pending):
         df = pdm.patristic_distance if weighted else pdm.path_edge_count
         for a in taxa:
             for b in taxa:
-                if a is not b and pdm2.patristic_distance(a, b) != df(a, b):
+                if a is not b and not close(pdm2.patristic_distance(a, b), df(a, b), 1e-12):
                     ctx.fail("csv-roundtrip", "distance %s-%s read back from CSV is %r, written from %r" % (
                         a.label, b.label, pdm2.patristic_distance(a, b), df(a, b)), case)
                     return
@@ -643,7 +663,7 @@ def case_matrix(ctx, dendropy, case, pending):
     by = {t.label: t for t in pdm.taxon_iter()}
     for i in range(n):
         for j in range(i + 1, n):
-            if Fraction(pdm.patristic_distance(by[labels[i]], by[labels[j]])) != Fraction(rows[i][j]) or \
+            if not close(pdm.patristic_distance(by[labels[i]], by[labels[j]]), Fraction(rows[i][j]), 1e-12) or \
                     pdm.patristic_distance(by[labels[j]], by[labels[i]]) != pdm.patristic_distance(by[labels[i]], by[labels[j]]):
                 ctx.fail("csv-read", "from_csv: cell (%s,%s) is %r, file says %s" % (
                     labels[i], labels[j], pdm.patristic_distance(by[labels[i]], by[labels[j]]), rows[i][j]), case)
@@ -686,6 +706,16 @@ def flush(ctx, pending):
             try:
                 mv = sorted(Fraction(x) for x in m.split())
                 ok = len(mv) == len(got) and all(close(x, y, 1e-12) for x, y in zip(got, mv))
+            except ValueError:
+                ok = False
+        elif how in ("pairs", "pairs-exact"):
+            shown = " ".join("%d:%d:%s" % (k[0], k[1], fr(v)) for k, v in sorted(got.items()))
+            try:
+                mv = {}
+                for w in m.split():
+                    a, b, v = w.split(":")
+                    mv[(int(a), int(b))] = Fraction(v)
+                ok = set(mv) == set(got) and all((Fraction(got[k]) == mv[k]) if how == "pairs-exact" else close(got[k], mv[k]) for k in got)
             except ValueError:
                 ok = False
         elif how in ("flat", "flat-exact"):
